@@ -91,7 +91,7 @@ static const char *const s_flag_names[F_NFLAGS] = {
     "iterator_and_list_agree",
     "list_form_static_list_too_small_refused",
     "ambiguous_host_colon_slash_weak_oracle",
-    "recorded_defect_class_input",
+    "regression_class_input_checked_strictly",
 };
 
 /* ------------------------------------------------------------------ component classes (DESIGN section 5, C13) */
@@ -121,11 +121,16 @@ static const char *const K_QUERY[] = {NULL,       "",     "k=v",   "k",        "
 #define NSWEEP 256
 #define PERMUTE 100003ULL /* prime, coprime to NCROSS = 2^4 3^2 5 7^3 */
 
-/* Failure classes of the UNCHANGED library that contradict the property (kept strict, own stable keys):
+/* Two input classes on which the pinned tree broke the property (both repaired in /repo by "fix:" commits).  They keep
+ * their own stable keys and the strict oracle, so the checks are silent now and fire under these keys if a defect returns:
  *  - scheme absent and the first ':' of the text lies in the path or the query and is followed by '/':
- *    the scheme state takes everything before that ':' (including '/' and '?') as the scheme.
- *  - path absent and the query contains '/': the authority state ends the authority at the first '/' even when a '?'
- *    precedes it, so the host swallows the '?' and part of the query. */
+ *    the scheme state took everything before that ':' (including '/' and '?') as the scheme
+ *    ("/login?r=http://e/" -> scheme "/login?r=http", host "e"; "/x:/y" -> rejected).
+ *  - path absent and the query contains '/': the authority state ended the authority at the first '/' even when a '?'
+ *    preceded it, so the host swallowed the '?' and part of the query
+ *    ("http://example.com?p=x/y" -> host "example.com?p=x", path "/y", no query).
+ * At most two witnesses per key and process are reported; the counters regression_class_* say how many inputs of each
+ * class were tried and how many of them mismatched. */
 static const char KEY_COLON_SLASH[] = "C13:defect:colon-slash-in-path-or-query-taken-as-scheme";
 static const char KEY_SLASH_QUERY[] = "C13:defect:slash-in-query-without-path-extends-authority";
 
@@ -535,7 +540,7 @@ static void compare_uri(struct verdict *v, const struct gen *g, const struct aws
     cmp_field(v, u, "path_and_query", aws_uri_path_and_query(u), want_pq);
 }
 
-/* one violation per case and API; cases of a recorded defect class report under the class key, two witnesses per process */
+/* one violation per case and API; inputs of a regression class report under the class key, two witnesses per process */
 static void report(const struct gen *g, const char *api, const char *field, const char *what) {
     char key[96];
     if (g->defect) {
@@ -759,7 +764,7 @@ static void parse_check(struct gen *g) {
     int rc = aws_uri_init_parse(&uri, alloc, &in_cur);
     if (mon_sampling()) {
         mon_sample("parse '%s' -> %s%s%s; ", printable(g->str, g->len), rc ? "rejected" : "accepted", g->ambiguous ? " (ambiguous host:/)" : "",
-                   g->defect ? " (recorded defect class)" : "");
+                   g->defect ? " (regression class)" : "");
     }
     if (g->len && memcmp(in, g->str, g->len)) {
         mon_violation("C13:parse:input-modified", "parse of '%s' modified the caller's text", printable(g->str, g->len));
@@ -1588,10 +1593,10 @@ int main(int argc, char **argv) {
     mon_count("query_parameters_yielded", n_it_params);
     mon_count("query_list_form_calls", n_list_calls);
     mon_count("ambiguous_host_colon_slash_inputs", n_ambiguous);
-    mon_count("defect_class_colon_slash_inputs", n_defect_colon);
-    mon_count("defect_class_slash_in_query_inputs", n_defect_slash);
-    mon_count("defect_class_colon_slash_mismatches", n_defect_colon_bad);
-    mon_count("defect_class_slash_in_query_mismatches", n_defect_slash_bad);
+    mon_count("regression_class_colon_slash_inputs", n_defect_colon);
+    mon_count("regression_class_slash_in_query_inputs", n_defect_slash);
+    mon_count("regression_class_colon_slash_mismatches", n_defect_colon_bad);
+    mon_count("regression_class_slash_in_query_mismatches", n_defect_slash_bad);
     mon_count("python_sample_records", n_py);
     return mon_finish();
 }
